@@ -138,7 +138,7 @@ fn hdr48(f: &[u8]) -> SpecHeader {
     SpecHeader::decode(&b)
 }
 
-fn first_diff(got: &[u8], want: &[u8]) -> &'static str {
+pub fn first_diff(got: &[u8], want: &[u8]) -> &'static str {
     if got.len() < 48 {
         return "short-frame";
     }
@@ -168,7 +168,7 @@ fn first_diff(got: &[u8], want: &[u8]) -> &'static str {
     } else if got.len() != want.len() {
         "frame-size"
     } else {
-        let ql = w.query_length as usize;
+        let ql = (w.query_length as usize).min(got.len() - 48);
         if got[48..48 + ql] != want[48..48 + ql] { "query" } else { "body" }
     }
 }
